@@ -279,6 +279,8 @@ fn slot_targets<V: Cv>(e: &Entry<V>, vals: &[Val], pi: &[F]) -> Vec<Target> {
 pub fn attack_stage<V: Cv>(e: &Entry<V>, input: &Vec<Val>, input_index: usize, k: u32, opts: &AtkOpts, seed: u64, with_hints: bool, rep: &mut Report) -> AtkStats {
     let mut st = AtkStats::default();
     let name = e.name();
+    let timing = std::env::var("MZV_C06_TIMING").is_ok();
+    let t_start = std::time::Instant::now();
     let Some(outs) = e.op.eval::<V>(input) else { return st };
     let mut vals = input.clone();
     vals.extend(outs);
@@ -373,10 +375,17 @@ pub fn attack_stage<V: Cv>(e: &Entry<V>, input: &Vec<Val>, input_index: usize, k
             targets.push(Target { label: format!("hint-cell@({},{})", cell.0, cell.1), inst: vec![], seeds: vec![(cell, nv)] });
         }
     }
+    if timing {
+        eprintln!("[c06-timing] {name} k={k}: set-up {:.1}s, {} targets", t_start.elapsed().as_secs_f64(), targets.len());
+    }
     for t in targets {
         st.targets += 1;
         rep.eval();
+        let t_a = std::time::Instant::now();
         let (att, stats) = attack(&mut tables, &t.inst, &t.seeds, budget, &mut rng);
+        if timing {
+            eprintln!("[c06-timing] {name} target {}: {:.1}s, {} nodes, found={}", t.label, t_a.elapsed().as_secs_f64(), stats.nodes, att.is_some());
+        }
         st.nodes += stats.nodes;
         let Some(_att) = att else { continue };
         let bound = bound_instance(&tables, 1, &pi);
